@@ -95,7 +95,7 @@ namespace smt
             case False:
                 return FALSE_lit; // the variables cannot assume the same value..
             case Undefined:
-                return sign(left) == sign(right) ? right : !right;
+                return right; // 'left' is true: the equality holds iff 'right' does..
             }
             [[fallthrough]];
         case False:
@@ -106,16 +106,16 @@ namespace smt
             case False:
                 return TRUE_lit; // the variables assume the same value..
             case Undefined:
-                return sign(left) == sign(right) ? !right : right;
+                return !right; // 'left' is false: the equality holds iff 'right' does not..
             }
             [[fallthrough]];
         case Undefined:
             switch (value(right))
             {
             case True:
-                return sign(left) == sign(right) ? left : !left;
+                return left;
             case False:
-                return sign(left) == sign(right) ? !left : left;
+                return !left;
             case Undefined:
                 break;
             }
